@@ -129,8 +129,10 @@ def pend (w : World) (i : Nat) : Option Nat :=
     | _ => none
   else none
 
-/-- … and its clock: what the thread may already have acquired from the thread it joins (`Notify::notify` lets the
-waiting thread join the notifier's causality at once) -/
+/-- … and its clock: what the invariant allows the thread to have acquired already from the thread it joins (before
+the repair of finding F26 `Notify::notify` let the waiting thread join the notifier's causality at once; now the
+joiner acquires in the second half of its wait only, and the lower bound of `LinkT` is attained; the sandwich is
+kept as it is — it is still an invariant) -/
 def pendHb (w : World) (i : Nat) : VV :=
   match pend w i with
   | some n => objHb w.exec.objs n
